@@ -79,6 +79,8 @@ structure Awaiter where
   notified : Bool := false
   polls : Nat := 2
   pendings : Nat := 0
+  /-- the value a Ready poll returned -/
+  got : Nat := 0
   deriving DecidableEq, Repr
 
 inductive PPc where
@@ -99,10 +101,18 @@ structure State where
   /-- awaiters queued on the async lock's `no_writer` event, in registration order -/
   listeners : List Nat := []
   ppc : PPc := .start
+  /-- loads still to come after the current one (a source written from the producer's thread:
+  `loading.store(true)`, new fetcher) and the number of the current load -/
+  reloads : Nat := 0
+  loadNo : Nat := 0
   aw : Nat → Awaiter
 
 def init (guardKind : Bool) (polls : Nat) : State :=
   { recheck := true, guardKind, aw := fun _ => { polls } }
+
+/-- with `reloads` further loads after the first -/
+def initR (guardKind : Bool) (polls reloads : Nat) : State :=
+  { recheck := true, guardKind, reloads, aw := fun _ => { polls } }
 
 /-- the await path as it was before the repair of F-C19-1: no second look at `loading` -/
 def initOld (guardKind : Bool) (polls : Nat) : State :=
@@ -130,7 +140,7 @@ def beginPoll (s : State) (i : Nat) (a : Awaiter) : State :=
         else
           { s with aw := upd s.aw i { a with pc := .push } }
     else
-      { s with aw := upd s.aw i { a with pc := .ready } }
+      { s with aw := upd s.aw i { a with pc := .ready, got := s.value.getD 0 } }
 
 def stepAwaiter (s : State) (i : Nat) : State :=
   let a := s.aw i
@@ -162,13 +172,16 @@ def stepProducer (s : State) : State :=
   | .start =>
     if s.readers = 0 then
       -- releasing the write lock notifies the first reader queued behind it
-      { s with value := some 7, writerWaiting := false, ppc := .entered
+      { s with value := some (7 + s.loadNo), writerWaiting := false, ppc := .entered
                aw := notifyOne s.aw s.listeners }
     else { s with writerWaiting := true }
   | .entered => { s with loading := false, ppc := .stored }
   | .stored => { s with aw := wakeAll s.aw s.wakers, wakers := [], ppc := .drained }
   | .drained => { s with ppc := .done }
-  | .done => s
+  | .done =>
+    -- reload: the derived's source is written, its task starts the next load
+    if s.reloads = 0 then s
+    else { s with loading := true, ppc := .start, reloads := s.reloads - 1, loadNo := s.loadNo + 1 }
 
 def step (s : State) (t : ThreadId) : State :=
   match t with
@@ -548,7 +561,11 @@ else branch (`state = Clean`); `utake` = `value.write().take()`; `uclearBegin` =
 `mark_dirty` of every subscriber that is not the current `Observer` (`inner_2`); `markDirty`/`markSubsLock`/`markLoop` =
 `mark_dirty` + `mark_subscribers_check` (subscribers cloned under the read lock, notified after it
 is released — 0488c9f; before: read lock held over the loop, `markHolds`); `markCheck`/
-`markCheckLock` = `mark_check`; `setSig` = `ArcRwSignal::set` (subscriber set cloned, each `mark_dirty`). -/
+`markCheckLock` = `mark_check`;
+`dIdle`/`dNext`/`dNeeds`/`dCheck`/`dAfter`/`dRunRead`/`dRunVal` = the async derived's task of the
+`derived` scenario (`arc_async_derived.rs`: `while rx.next().await` → `needs_rerun`
+(`async_derived/inner.rs`: test-and-clear `Dirty` under the write lock, else
+`source.update_if_necessary()` for every source) → run the fetcher under `with_observer`); `setSig` = `ArcRwSignal::set` (subscriber set cloned, each `mark_dirty`). -/
 namespace Graph
 
 inductive Src where
@@ -592,10 +609,31 @@ inductive YName where
 
 inductive Op where
   | get (m : Nat) | set (v : Nat)
+  /-- `derived` scenario: write the signal `b` the async derived reads directly -/
+  | setB (v : Nat)
+  /-- `derived` scenario: run the executor of the derived's task until idle (thread 0) -/
+  | poll
   deriving DecidableEq, Repr
 
 inductive Res where
   | val (n : Nat) | unit | panic
+  deriving DecidableEq, Repr
+
+/-- The async derived of the `derived` scenario: value = (last memo) * 1000 + signal `b`.
+`sources`: `some j` = memo `j`, `none` = signal `b` (never cleared, `async_derived/inner.rs`).
+`flag`/`reg`/`woken` = its notification channel (`channel.rs`) and the task's waker. -/
+structure Der where
+  present : Bool := false
+  dirty : Bool := false
+  first : Bool := true
+  flag : Bool := false
+  reg : Bool := false
+  woken : Bool := false
+  value : Option Nat := none
+  sources : List (Option Nat) := []
+  subB : Bool := false
+  /-- the task's future panicked inside a poll (a memo it read had no value): the executor drops it -/
+  dead : Bool := false
   deriving DecidableEq, Repr
 
 inductive Frame where
@@ -624,6 +662,16 @@ inductive Frame where
   | setSig (v : Nat)
   | readOut (m : Nat)
   | opEnd
+  -- the async derived's task (`arc_async_derived.rs` loop, `inner.rs` `needs_rerun`)
+  | setSigB (v : Nat)
+  | dIdle
+  | dNext
+  | dNeeds
+  | dCheck (rest : List (Option Nat))
+  | dCheckAfter (rest : List (Option Nat))
+  | dAfter
+  | dRunRead (rest : List (Option Nat)) (acc : List Nat)
+  | dRunVal (j : Nat) (rest : List (Option Nat)) (acc : List Nat)
   deriving DecidableEq, Repr
 
 structure Thread where
@@ -656,12 +704,22 @@ structure State where
   finalMode : Bool := false
   sig : Nat := 1
   sigSubs : List Nat := []
+  /-- signal `b` and the async derived (`derived` scenario); as a subscriber the derived has the
+  id `defs.length` -/
+  sigB : Nat := 10
+  der : Der := {}
   ms : Nat → MemoSt := fun _ => {}
   ts : Nat → Thread
 
 def opFrames : Op → List Frame
   | .get m => [.uin m, .readOut m]
   | .set v => [.setSig v]
+  | .setB v => [.setSigB v]
+  | .poll => [.dIdle]
+
+/-- `Sender::notify` on the derived's channel: set the flag, wake the registered task waker -/
+def Der.notify (d : Der) : Der :=
+  if d.reg then { d with flag := true, reg := false, woken := true } else { d with flag := true }
 
 /-- load the frames of op `k` (a harness-level yield point precedes every op) -/
 def loadOp (th : Thread) : Thread :=
@@ -676,6 +734,8 @@ def gated (s : State) : YName → Bool
 
 def setM (s : State) (m : Nat) (x : MemoSt) : State := { s with ms := upd s.ms m x }
 def setT (s : State) (t : Nat) (x : Thread) : State := { s with ts := upd s.ts t x }
+
+def isDer (s : State) (m : Nat) : Bool := s.der.present && m == s.defs.length
 
 def canR (s : State) (m : Nat) : Bool := (s.ms m).w == none
 def canW (s : State) (m : Nat) : Bool := (s.ms m).w == none && (s.ms m).r == []
@@ -764,17 +824,23 @@ def exec (s : State) (t : Nat) : Option State :=
         ((if ch then [.yld .unlocked] else []) ++ marks subs ++ [.yld .released, .uret ch] ++ rest)
     | .uret ch => go s { th with ret := ch } rest
     | .markDirty m =>
+      -- the async derived: `mark_dirty` = state Dirty + `notifier.notify()`
+      if isDer s m then go { s with der := { s.der with dirty := true }.notify } th rest else
       if !canW s m then none else go (setM s m { s.ms m with st := .dirty }) th rest
     | .markSubsLock m =>
+      if isDer s m then go s th rest else
       if !canR s m then none else
       go (if s.markHolds then setM s m { s.ms m with r := t :: (s.ms m).r } else s) th
         (.markLoop m (s.ms m).subs :: rest)
     | .markLoop m [] => go (if s.markHolds then setM s m { s.ms m with r := (s.ms m).r.erase t } else s) th rest
     | .markLoop m (sub :: more) => go s th (.markCheck sub :: .markCheckLock sub :: .markLoop m more :: rest)
     | .markCheck m =>
+      -- the async derived: `mark_check` = `notifier.notify()`
+      if isDer s m then go { s with der := s.der.notify } th rest else
       if !canW s m then none else
       go (setM s m { s.ms m with st := if (s.ms m).st == .dirty then .dirty else .check }) th rest
     | .markCheckLock m =>
+      if isDer s m then go s th rest else
       if !canR s m then none else
       go (if s.markHolds then setM s m { s.ms m with r := t :: (s.ms m).r } else s) th
         (.markLoop m (s.ms m).subs :: rest)
@@ -784,7 +850,51 @@ def exec (s : State) (t : Nat) : Option State :=
       | some v => go s { th with cur := .val v } rest
       | none => go s { th with cur := .panic } rest
     | .opEnd =>
+      let s := if th.prog[th.k]? == some Op.poll && th.cur == .panic then { s with der := { s.der with dead := true } } else s
       some (setT s t (loadOp { th with results := th.results ++ [th.cur], k := th.k + 1, frames := [] }))
+    | .setSigB v =>
+      go { s with sigB := v } { th with cur := .unit }
+        ((if s.der.subB then marks [s.defs.length] else []) ++ rest)
+    | .dIdle =>
+      -- `run_until_idle`: poll the task while its waker has fired
+      if s.der.woken && !s.der.dead then
+        go { s with der := { s.der with woken := false } } { th with cur := .unit } (.dNext :: .dIdle :: rest)
+      else go s { th with cur := .unit } rest
+    | .dNext =>
+      -- `rx.next().await`: register the waker, swap the flag
+      if s.der.flag then go { s with der := { s.der with reg := true, flag := false } } th (.dNeeds :: rest)
+      else go { s with der := { s.der with reg := true } } th rest
+    | .dNeeds =>
+      -- `needs_rerun` under `with_observer`: test-and-clear `Dirty`, else check the sources
+      if s.der.dirty then
+        go { s with der := { s.der with dirty := false } }
+          { th with obs := s.defs.length :: th.obs, ret := true } (.dAfter :: rest)
+      else go s { th with obs := s.defs.length :: th.obs } (.dCheck s.der.sources :: .dAfter :: rest)
+    | .dCheck [] => go s { th with ret := false } rest
+    | .dCheck (some j :: more) => go s th (.uin j :: .dCheckAfter more :: rest)
+    | .dCheck (none :: more) => go s th (.dCheck more :: rest)
+    | .dCheckAfter more => if th.ret then go s th rest else go s th (.dCheck more :: rest)
+    | .dAfter =>
+      if th.ret || s.der.first then
+        -- run the fetcher (observer = the derived): it reads the last memo, then signal `b`
+        go { s with der := { s.der with first := false } } th
+          (.dRunRead [some (s.defs.length - 1), none] [] :: rest)
+      else go s { th with obs := th.obs.drop 1 } (.dNext :: rest)
+    | .dRunRead [] acc =>
+      go { s with der := { s.der with value := some (acc.getD 0 0 * 1000 + acc.getD 1 0) } }
+        { th with obs := th.obs.drop 1 } (.dNext :: rest)
+    | .dRunRead (some j :: more) acc =>
+      if !canW s j then none else
+      let d := { s.der with sources := if s.der.sources.contains (some j) then s.der.sources else s.der.sources ++ [some j] }
+      go (setM { s with der := d } j { s.ms j with subs := subscribe (s.ms j).subs s.defs.length }) th
+        (.uin j :: .dRunVal j more acc :: rest)
+    | .dRunRead (none :: more) acc =>
+      let d := { s.der with subB := true, sources := if s.der.sources.contains none then s.der.sources else s.der.sources ++ [none] }
+      go { s with der := d } th (.dRunRead more (acc ++ [s.sigB]) :: rest)
+    | .dRunVal j more acc =>
+      match (s.ms j).value with
+      | some v => go s th (.dRunRead more (acc ++ [v]) :: rest)
+      | none => go s { th with cur := .panic, obs := [] } (unwind rest)
 
 def finished (th : Thread) : Bool := th.frames.isEmpty
 
@@ -855,6 +965,21 @@ def initOld (defs : List Def) (gateM gateL : Bool) (progs : List (List Op)) : St
 def initCleanOld (defs : List Def) (gateM gateL : Bool) (progs : List (List Op)) : State :=
   let s := readAll (initOld defs gateM gateL progs)
   setT s s.n {}
+
+/-- the `derived` scenario after its set-up: memos as the first load left them, the derived loaded,
+subscribed, its task parked in `rx.next()` -/
+def initDerived (defs : List Def) (progs : List (List Op)) : State :=
+  let s0 := init defs true false progs
+  let s1 := { s0 with finalMode := true, der := { present := true, flag := true, woken := true } }
+  let s2 := setT s1 s1.n (loadOp { prog := [Op.poll] })
+  let s3 := cont (fuel * 2) s2 s1.n
+  setT { s3 with finalMode := false } s3.n {}
+
+/-- the poll thread 0 performs once every party has returned; nothing parks -/
+def finalPoll (s : State) : State :=
+  let s1 := { s with finalMode := true }
+  let s2 := setT s1 0 (loadOp { prog := [Op.poll] })
+  cont (fuel * 2) s2 0
 
 def allFinished (s : State) : Nat → Bool
   | 0 => true
@@ -1012,6 +1137,7 @@ def run (old : Bool) (defs : List Graph.Def) : List Graph.Op → Out → Out
   | .set v :: rest, o =>
     if old then { o with hung := true }
     else run old defs rest { o with results := o.results ++ [none], sig := v, last := watched defs v }
+  | _ :: rest, o => run old defs rest o
 
 def exec (old : Bool) (defs : List Graph.Def) (prog : List Graph.Op) : Out :=
   run old defs prog { last := watched defs 1 }
